@@ -70,6 +70,9 @@ type Case struct {
 	Kinds    string `json:"kinds"`   // Kinds[i-1] = 'f' | 'd'
 	Links    []Link `json:"links,omitempty"`
 	ReadOnly int    `json:"read_only,omitempty"` // entry made read-only (0 = none)
+	// OutsideRO: everything in the outside region O is read-only for its owner (files 0444, directories 0555): a call that
+	// makes what it is about to remove writable must not do so to what a link points at
+	OutsideRO bool `json:"outside_read_only,omitempty"`
 	Op       string `json:"op"`
 	Protect  int    `json:"protect,omitempty"` // exclusion pattern = name of entry i (>0) or of link -i (<0); 0 = no pattern
 }
@@ -145,6 +148,9 @@ func (c *Case) String() string {
 	}
 	if c.ReadOnly != 0 {
 		s += fmt.Sprintf(" ro=%d", c.ReadOnly)
+	}
+	if c.OutsideRO {
+		s += " outside-read-only"
 	}
 	s += " op=" + c.Op
 	if c.Protect != 0 {
@@ -403,6 +409,18 @@ func (b *builder) age(c *Case) error {
 }
 
 func (b *builder) readOnly(c *Case) error {
+	if c.OutsideRO {
+		for _, f := range []string{"O/g", "O/j/n", "O/j/t/n"} {
+			if err := b.raw.Chmod(b.abs(f), 0o444); err != nil {
+				return err
+			}
+		}
+		for _, d := range []string{"O/j/t", "O/j", "O/w"} {
+			if err := b.raw.Chmod(b.abs(d), 0o555); err != nil {
+				return err
+			}
+		}
+	}
 	if c.ReadOnly == 0 {
 		return nil
 	}
